@@ -6,7 +6,7 @@ cd /verif
 # a private copy of the checker so that rebuilding bin/verifcheck during the run cannot disturb it
 export VC=/tmp/vc-matrix-$$; cp bin/verifcheck "$VC"; trap 'rm -f "$VC"' EXIT
 names=("$@"); [ ${#names[@]} -eq 0 ] && names=($(ls seeded | grep -E '^C[0-9]+-[0-9]+$' | sort -V))
-printf '%s\n' "${names[@]}" | xargs -P 4 -n 1 ./tools_seedone.sh | sort -V
+printf '%s\n' "${names[@]}" | xargs -P ${MATRIX_P:-4} -n 1 ./tools_seedone.sh | sort -V
 python3 - <<'PY'
 import json,glob,os,re
 rows=[]
